@@ -22,6 +22,8 @@ pub(crate) mod h_arc;
 pub(crate) mod h_tlfu;
 #[cfg(kani)]
 pub(crate) mod h_sampled;
+#[cfg(kani)]
+pub(crate) mod h_wtlfu;
 
 /// Concrete-playback tests written by the driver when it replays a solver counterexample.
 #[cfg(all(kani, test))]
